@@ -28,7 +28,7 @@ theorem diff_of_perm {perm names : List Nat} (h : perm.Perm names) : names.diff 
 
 variable {K : Type} [Field K]
 
-theorem sum_map_div (l : List Nat) (g : Nat → K) (c : K) :
+theorem batch_sum_map_div (l : List Nat) (g : Nat → K) (c : K) :
     (l.map (fun a => g a / c)).sum = (l.map g).sum / c := by
   induction l with
   | nil => simp
